@@ -19,9 +19,28 @@ func Cov(id int, v uint64) {
 	}
 }
 
+// CovProp[id] becomes 1 once the carry (borrow) with that id was raised *only because of* its carry-in: the two
+// operands alone sum to exactly 2^64-1 (are equal) and the incoming carry (borrow) is 1. This is the case a folded
+// or re-associated carry chain gets wrong while every other case stays right.
+var CovProp []uint32
+
+// CovAdd / CovSub are inserted next to Cov with the operands of the addition / subtraction.
+func CovAdd(id int, a, b, cin uint64) {
+	if a+b == ^uint64(0) && cin == 1 {
+		CovProp[id] = 1
+	}
+}
+
+func CovSub(id int, a, b, bin uint64) {
+	if a == b && bin == 1 {
+		CovProp[id] = 1
+	}
+}
+
 func init() {
 	CovHit0 = make([]uint32, len(CovNames))
 	CovHit1 = make([]uint32, len(CovNames))
+	CovProp = make([]uint32, len(CovNames))
 }
 
 // Enter is the call inserted at the start of every function of the three packages.
